@@ -60,7 +60,7 @@ def strategy(tp):
         "mode": st.sampled_from(["rw-c0", "rw-c8", "rw-c8", "rw-c40", "rw-c40", "xacl-c6"]),
         "fresh": st.booleans(),
         "id_split": st.sampled_from([False, False, False, True]),   # allows cuts before the space that follows the channel id
-        "replies": st.lists(reply, min_size=1, max_size=nmax),
+        "replies": st.one_of(st.lists(reply, min_size=1, max_size=nmax), st.lists(reply, min_size=5, max_size=nmax), st.lists(reply, min_size=12, max_size=nmax)),
         "order": st.lists(st.integers(0, 1000), min_size=nmax, max_size=nmax),
         "extras": st.lists(extra, min_size=0, max_size=3),
         "hold_last": st.booleans(),
@@ -302,7 +302,7 @@ def _run(env, inst, sc, r):
     absorb(stub.wait_requests(min(n, capacity), timeout=6))
     visible_at_start = len(seen)
     order_key = sc["order"]
-    extras = sorted(sc["extras"], key=lambda e: e["at"]) if conc > 0 else []
+    extras = sorted((dict(e, at=e["at"] % n) for e in sc["extras"]), key=lambda e: e["at"]) if conc > 0 else []
     step = 0
     fragmented = 0
     reordered = False
